@@ -39,7 +39,7 @@ IO = 'chainables.io'
 
 
 def run(ctx: Ctx):
-  for r in (r1, r2, r3, r4, r6, r8, r9, r10, r11):
+  for r in (r1, r2, r3, r4, r6, r8, r9, r10, r11, r12):
     ctx.guard(r)
   from mlmverif.props import c02
   ctx.include('R-C10-7', 'a restored pipeline continues with the WHOLE checkpointed'
@@ -52,7 +52,7 @@ def run(ctx: Ctx):
               ' [i, stop) without skipping or repeating (R-C09-6, R-C12-4); a'
               ' restored source that is sharded again keeps its position'
               ' (R-C09-10)',
-              _shared, min_instances=12)
+              _shared, min_instances=13)
 
 
 def _shared(sub):
@@ -62,6 +62,7 @@ def _shared(sub):
   sub.guard(c09.r4)
   sub.guard(c09.r6)
   sub.guard(c12.r4)
+  sub.guard(c09.r12)
 
 
 def r1(ctx: Ctx):
@@ -459,6 +460,53 @@ def r11(ctx: Ctx):
   ctx.floor(rule, 1)
 
 
+_LOOKAHEAD = ('peekable', 'seekable', 'spy', 'tee', 'bucket', 'islice_extended', 'lookahead')
+
+
+def r12(ctx: Ctx):
+  rule = 'R-C10-12'
+  ctx.rule(rule, 'a re-batching stage has consumed exactly what it delivered (plus the remainder it'
+           ' holds): rebatched_args draws ONE input per round with `next(<input>, None)` and wraps its'
+           ' input in nothing that reads ahead (peekable / seekable / spy / tee ...; the'
+           ' first()+prepend() pair used to count the columns pushes the element back and is exact),'
+           ' nor tests the input iterator for truth (which peeks). A look-ahead pulls the next record'
+           ' out of the recoverable source before the current batch is yielded: the position recorded'
+           ' in a checkpoint is one record ahead and that record is lost on resume')
+  fi = ctx.repo.func(IU, 'rebatched_args')
+  inp = fi.params()[0]
+  n = 0
+  derived = {inp}
+  for _ in range(3):
+    for x in walk_no_nested(fi.node):
+      if isinstance(x, ast.Assign) and any(isinstance(y, ast.Name) and y.id in derived for y in ast.walk(x.value)):
+        derived |= {t.id for t in x.targets if isinstance(t, ast.Name)}
+  bad = None
+  for c in walk_no_nested(fi.node):
+    if isinstance(c, ast.Call) and unparse(c.func).split('.')[-1] in _LOOKAHEAD and any(
+        isinstance(y, ast.Name) and y.id == inp for a_ in c.args for y in ast.walk(a_)):
+      bad = (c, f'`{unparse(c)[:50]}` wraps the input in a look-ahead reader')
+  from mlmverif.props.c17 import _truth_positions
+  for t in _truth_positions(fi.node):
+    while isinstance(t, ast.UnaryOp) and isinstance(t.op, ast.Not):
+      t = t.operand
+    if isinstance(t, ast.Name) and t.id == inp:
+      bad = (t, f'`{inp}` is tested for truth (a peek on a peekable input)')
+  draws = [c for c in walk_no_nested(fi.node) if isinstance(c, ast.Call) and unparse(c.func) == 'next' and c.args
+           and isinstance(c.args[0], ast.Name) and c.args[0].id == inp]
+  n = len(draws)
+  if bad:
+    ctx.fail(rule, fi, 'rebatched_args reads its input one element per round, without look-ahead',
+             f'{bad[1]}: the stage has read one more record from its source than it has delivered when a batch is'
+             ' yielded — a checkpoint taken there records a source position one record ahead, and the resumed run'
+             ' never delivers that record', node=bad[0])
+  elif len(draws) == 1:
+    ctx.ok(rule, fi, f'one `next({inp}, None)` per round, no look-ahead wrapper', draws[0])
+  else:
+    ctx.fail(rule, fi, 'rebatched_args reads its input one element per round, without look-ahead',
+             f'{len(draws)} draws from the input in one round', node=fi.node)
+  ctx.floor(rule, 1, max(n, 1))
+
+
 def r3(ctx: Ctx):
   rule = 'R-C10-3'
   ctx.rule(rule, 'structure: MultiplexIterator.from_state zips data sources'
@@ -714,6 +762,9 @@ _F = 'chainables/io.py'
 _T = 'chainables/transform.py'
 _U = 'utils/iter_utils.py'
 VARIANTS = [
+    B('rebatcher-peeks-one-input-ahead', _U,
+      '  column_buffer = [[] for _ in range(num_columns)]\n  batch_sizes = np.zeros(num_columns, dtype=int)\n  exhausted = False',
+      '  tuples = mit.peekable(tuples)\n  column_buffer = [[] for _ in range(num_columns)]\n  batch_sizes = np.zeros(num_columns, dtype=int)\n  exhausted = False', 'R-C10-12'),
     B('revert-raised-record-counted', _F,
       '    except Exception:\n      # The reader steps over a record it cannot read before raising, the\n      # iteration can continue behind it: the record still occupies an index.\n      self._index += 1\n      raise',
       '    except Exception:\n      raise', 'R-C10-11'),
